@@ -294,8 +294,26 @@ func modText(a []string) string {
 	sb.WriteString("@base = global i32 0\n")
 	id := 0
 	k := 0
+	x := 0
 	for _, s := range a {
 		p := strings.Split(s, ":")
+		if p[0] == "X" {
+			// an entity of another namespace with an ID / name of its own between the global entities
+			x++
+			switch p[1] {
+			case "a":
+				fmt.Fprintf(&sb, "attributes #%d = { nounwind }\n", x-1) // small IDs: they coincide with IDs of unnamed globals
+			case "m":
+				fmt.Fprintf(&sb, "!%d = !{}\n", x-1)
+			case "t":
+				fmt.Fprintf(&sb, "%%t%d = type opaque\n", x)
+			case "c":
+				fmt.Fprintf(&sb, "$c%d = comdat any\n", x)
+			case "n":
+				fmt.Fprintf(&sb, "!nm%d = !{}\n", x)
+			}
+			continue
+		}
 		var ident string
 		if p[1] == "n" {
 			k++
@@ -414,6 +432,9 @@ func init() {
 		k := 0
 		for _, s := range a {
 			p := strings.Split(s, ":")
+			if p[0] == "X" {
+				continue
+			}
 			name := ""
 			if p[1] == "n" {
 				k++
